@@ -194,7 +194,12 @@ cat.register(arraylist)(np.concatenate)
 
 @UnaryOp.make
 def clamp(x, min=None, max=None):
-    return min(max(x, min), max)
+    # The parameters shadow the ops of the same names.
+    if min is not None and x < min:
+        x = min
+    if max is not None and x > max:
+        x = max
+    return x
 
 
 clamp.register(array)(np.clip)
